@@ -51,7 +51,7 @@ type enrollCase struct {
 	Salt        int64  `json:"salt"` // seeds the choices inside the case (positions of flips, cuts, ...)
 }
 
-var enrollStateKinds = []string{"nil", "empty", "nested"}
+var enrollStateKinds = []string{"nil", "empty", "nested", "large"}
 
 func enrollStruct(kind string, salt int64) *structpb.Struct {
 	switch kind {
@@ -63,6 +63,21 @@ func enrollStruct(kind string, salt int64) *structpb.Struct {
 			"version": 3,
 			"tags":    []any{"a", true, nil, 1.5},
 			"inner":   map[string]any{"deep": map[string]any{"k": "v"}, "none": map[string]any{}},
+		})
+		if err != nil {
+			panic(err)
+		}
+		return s
+	case "large":
+		// a few kilobytes of application data (labels, an inventory): opaque to the library, no documented limit
+		var inv []any
+		for i := 0; i < 40; i++ {
+			inv = append(inv, fmt.Sprintf("item-%02d-%032x", i, salt+int64(i)))
+		}
+		s, err := structpb.NewStruct(map[string]any{
+			"name":      fmt.Sprintf("n-%d", salt&0xffff),
+			"blob":      strings.Repeat(fmt.Sprintf("%08x", salt&0xffffffff), 300),
+			"inventory": inv,
 		})
 		if err != nil {
 			panic(err)
@@ -1049,9 +1064,9 @@ func runEnroll(c *engine.Ctx) engine.Result {
 	r.Require("token_supplied_after_credential_generation", int64(perFlow[world.FlowToken])/4)
 	r.Require("registration_wrapper:true", int64(perFlow[world.FlowWrapper]))
 	for _, st := range enrollStateKinds {
-		r.Require("state_or_params:"+st, n/3)
-		r.Require("state_compared:"+st, int64(perFlow[world.FlowAuthorize]+perFlow[world.FlowToken])/3)
-		r.Require("params_compared:"+st, int64(perFlow[world.FlowWrapper]+perFlow[world.FlowRewrapped])/3)
+		r.Require("state_or_params:"+st, n/4)
+		r.Require("state_compared:"+st, int64(perFlow[world.FlowAuthorize]+perFlow[world.FlowToken])/4)
+		r.Require("params_compared:"+st, int64(perFlow[world.FlowWrapper]+perFlow[world.FlowRewrapped])/4)
 	}
 	for _, k := range []string{"none", "handler-default", "explicit-nil"} {
 		r.Require("token_state_vs_fetch_option:"+k, int64(perFlow[world.FlowToken])/3/6)
